@@ -142,6 +142,13 @@ Check C15_slice_is_a_block :
   forall (T : Type) (r : range) (l : list T), exists p q, l = p ++ select r l ++ q.
 Print Assumptions C15_slice_is_a_block.
 
+Theorem C15_sort_idempotent :
+  forall (l : list str), sort_asc (sort_asc l) = sort_asc l.
+Proof. exact sort_idempotent. Qed.
+Check C15_sort_idempotent :
+  forall (l : list str), sort_asc (sort_asc l) = sort_asc l.
+Print Assumptions C15_sort_idempotent.
+
 Theorem C15_sort_invents_nothing :
   forall (l : list str), incl (sort_asc l) l.
 Proof. exact sort_incl. Qed.
